@@ -43,9 +43,24 @@ def _mode(s):
     return int(s, 8)
 
 
+IPY_TARGET = "ipython/profile_default/ipython_config.py"
+IPY_REAL = "dotfiles/ipython_config.py"
+IPY_LAYOUTS = ["file", "link", "chain", "missing"]
+# what the stand-in `ipython profile create` (layout "missing") writes
+IPY_STUB = "# Configuration file for ipython.\n\nc = get_config()  #noqa\n\n"
+_RUNKEYS = ("kind", "k", "j", "errno", "sched", "limit", "_src")
+
+
+def cfgkey(case):
+    """the configuration of a case without its crash point / fault / schedule"""
+    return repr(sorted((k, str(v)) for k, v in case.items() if k not in _RUNKEYS))
+
+
 def tname(case):
-    """target file name; `name_len` asks for a name of exactly that many characters (near NAME_MAX the temp
+    """target file name (relative to the scratch root); `name_len` asks for a name of exactly that many characters (near NAME_MAX the temp
     name <target>.tmp.<pid> no longer fits: the real code must fail with ENAMETOOLONG and leave the target alone)"""
+    if case.get("via") == "ipyconfig":
+        return IPY_TARGET
     n = case.get("name_len")
     if not n:
         return TARGET
@@ -81,8 +96,10 @@ class C08(Prop):
     quick_deadline_s = 60
     thorough_deadline_s = 600
     rule = ("(previous file absent | size x mode) x new size x write chunking (short writes) x stale temp file x "
-            "entry (atomic_write_file | bin/tidy-imports --replace) x {crash at call k, OSError at call k, two-writer "
-            "schedule}; sizes {0,1,8191,8192,8193,102400}, modes {0600,0644,0755,0444}; non-trivial = the child reached "
+            "entry (atomic_write_file | bin/tidy-imports --replace | install_in_ipython_config_file with the config a file/"
+            "symlink/symlink chain/missing) x target names up to NAME_MAX x same-Filename-object-then-chmod sequences x "
+            "{crash at call k, OSError at call k, OSError then crash, RLIMIT_FSIZE, two-writer schedule} + source audit of "
+            "write sites; sizes {0,1,8191,8192,8193,102400}, modes {0600,0644,0755,0444}; non-trivial = the child reached "
             "at least one intercepted call; distinct by the whole case")
     trusted_base = [
         "the kernel's rename(2) atomicity, open(O_CREAT|O_TRUNC) and chmod/chown semantics (modelled, not verified)",
@@ -105,6 +122,15 @@ class C08(Prop):
         self.teardown()
         self.scratch = tempfile.mkdtemp(prefix="pfbverif.c08.")
         self._scratch_owner = os.getpid()
+        try:    # a check that is terminated (timeout of a caller) must not leave its scratch directory behind
+            import signal
+
+            def _term(signum, frame):
+                self.teardown()
+                os._exit(2)
+            signal.signal(signal.SIGTERM, _term)
+        except (ValueError, OSError):
+            pass
         self._pool = None
         self._nc = {}
         self._ref = {}
@@ -149,6 +175,10 @@ class C08(Prop):
     # ------------------------------------------------------------ scenarios
     @staticmethod
     def _old_bytes(case):
+        if case.get("via") == "ipyconfig":
+            if case.get("layout") == "missing":
+                return IPY_STUB.encode()
+            return ("c = get_config()\n" + G.content("old", case["old"]["size"])).encode()
         if case.get("old") is None:
             return None
         if case.get("via") == "cmdline":
@@ -161,7 +191,51 @@ class C08(Prop):
             return G.content("new", case["new_size"])
         return G.content("newB", case["new_size_b"])
 
+    def _old_mode(self, case):
+        """permission bits of the original just before it is replaced (octal string) or None"""
+        if case.get("via") == "ipyconfig" and case.get("layout") == "missing":
+            return "%04o" % self.env().dflt
+        if case.get("old") is None:
+            return None
+        return case.get("chmod_to") or case["old"]["mode"]
+
+    def _old_gid(self, case):
+        if case.get("via") == "ipyconfig" and case.get("layout") == "missing":
+            return os.getegid()
+        return self.old_gid
+
+    def _populate_ipy(self, root, case):
+        """IPYTHONDIR with profile_default/ipython_config.py as a regular file, a symlink into a dotfiles
+        checkout, a chain of two symlinks, or missing (then a stand-in `ipython profile create` makes it)"""
+        prof = os.path.join(root, "ipython", "profile_default")
+        os.makedirs(prof)
+        os.makedirs(os.path.join(root, "dotfiles"))
+        os.makedirs(os.path.join(root, "bin"))
+        config = os.path.join(root, IPY_TARGET)
+        layout = case.get("layout", "file")
+        with open(os.path.join(root, "bin", "ipython"), "w") as f:
+            f.write("#!/bin/sh\nprintf '%s' > \"$IPYTHONDIR/profile_default/ipython_config.py\"\n"
+                    % IPY_STUB.replace("\n", "\\n"))
+        os.chmod(os.path.join(root, "bin", "ipython"), 0o755)
+        if layout == "missing":
+            return config
+        real = config if layout == "file" else os.path.join(root, IPY_REAL)
+        with open(real, "wb") as f:
+            f.write(self._old_bytes(case))
+        os.chmod(real, _mode(case["old"]["mode"]))
+        if self.root_user:
+            os.chown(real, -1, self.old_gid)
+        if layout == "link":
+            os.symlink(real, config)
+        elif layout == "chain":
+            mid = os.path.join(root, "dotfiles", "link2.py")
+            os.symlink("ipython_config.py", mid)          # relative link inside the checkout
+            os.symlink(mid, config)
+        return config
+
     def _populate(self, root, case):
+        if case.get("via") == "ipyconfig":
+            return self._populate_ipy(root, case)
         ob = self._old_bytes(case)
         path = os.path.join(root, tname(case))
         if ob is not None:
@@ -185,7 +259,48 @@ class C08(Prop):
             os.chmod(p, _mode(stale["mode"]))
         return prep
 
+    def _entry_and_prepare(self, case, root, path):
+        """single-writer entry + what runs in the child before the tracer is installed"""
+        stale = self._prepare(root, case.get("stale"), "staleA", tname(case))
+        if case.get("via") != "func" or not case.get("pre"):
+            return self._entry(case, path), stale
+        # the SAME Filename object is looked at first (as the command line's argument expansion does, or an
+        # earlier replacement in a long-lived session) and used for the replacement later
+        from pyflyby._file import Filename, atomic_write_file, expand_py_files_from_args
+        data = self._new_text(case)
+        old_text = self._old_bytes(case).decode()
+        holder = {}
+
+        def prep(pid):
+            pre = case["pre"]
+            fn = Filename(path)
+            if pre == "isfile":
+                fn.isfile
+            elif pre == "expand":
+                fn = expand_py_files_from_args([fn])[0]
+            elif pre == "expanddir":
+                fn = [f for f in expand_py_files_from_args([Filename(os.path.dirname(path))]) if str(f) == path][0]
+            elif pre == "write":
+                atomic_write_file(fn, old_text)
+            holder["fn"] = fn
+            if stale:
+                stale(pid)       # (after the earlier replacement, which would have used up a stale temp file)
+
+        def entry():
+            atomic_write_file(holder["fn"], data)
+        return entry, prep
+
     def _entry(self, case, path, who="A"):
+        if case.get("via") == "ipyconfig":
+            root = path[: -len(IPY_TARGET) - 1]
+            import IPython  # noqa  (imported before the fork)
+
+            def entry():
+                os.environ["IPYTHONDIR"] = os.path.join(root, "ipython")
+                os.environ["PATH"] = os.path.join(root, "bin") + os.pathsep + os.environ.get("PATH", "")
+                from pyflyby._interactive import install_in_ipython_config_file
+                install_in_ipython_config_file()
+            return entry
         if case.get("via") == "cmdline":
             def entry():
                 script = os.path.join(REPO, "bin", "tidy-imports")
@@ -203,19 +318,26 @@ class C08(Prop):
         """`watch`: the child reads the target (bytes + mode) right after every call it makes —
         the observer at any instant (single-writer runs; the scheduler observes for pairs)"""
         cap = case.get("cap") if who == "A" else case.get("cap_b")
+        extra = dict(cap=cap, watch=watch)
+        if case.get("chmod_to") and watch:
+            extra["chmod_at_arm"] = [watch, _mode(case["chmod_to"])]
         if case["kind"] == "crash":
-            return dict(kind="crash", k=case["k"], cap=cap, watch=watch)
+            return dict(kind="crash", k=case["k"], **extra)
         if case["kind"] == "fault":
-            return dict(kind="fault", k=case["k"], errno=case["errno"], cap=cap, watch=watch)
+            return dict(kind="fault", k=case["k"], errno=case["errno"], **extra)
         if case["kind"] == "faultcrash":      # OSError at call k, process death at the later boundary j
-            return dict(kind="faultcrash", k=case["k"], errno=case["errno"], j=case["j"], cap=cap, watch=watch)
+            return dict(kind="faultcrash", k=case["k"], errno=case["errno"], j=case["j"], **extra)
+        if case["kind"] == "fsize":           # RLIMIT_FSIZE: the kernel cuts the write short, then EFBIG
+            return dict(kind=None, fsize=case["limit"], **extra)
         return dict(kind=None, cap=cap)
 
     def _reference_new(self, case):
-        """complete new contents for the command-line entry = what a fault-free run leaves"""
-        key = (case["old"]["size"],)
+        """complete new contents for the command-line / IPython-config entries = what a fault-free run leaves"""
+        key = (case["via"], case.get("layout") == "missing", (case.get("old") or {}).get("size"))
         if key not in self._ref:
-            c = dict(case, kind="crash", k=10 ** 9, cap=None, stale=None, name_len=None)
+            c = dict(case, kind="crash", k=10 ** 9, cap=None, stale=None, name_len=None, chmod_to=None)
+            if c.get("layout") in ("link", "chain"):
+                c["layout"] = "file"
             root = self._mkroot()
             try:
                 path = self._populate(root, c)
@@ -227,14 +349,14 @@ class C08(Prop):
         return self._ref[key]
 
     def _new_bytes(self, case, who="A"):
-        if case.get("via") == "cmdline":
+        if case.get("via") in ("cmdline", "ipyconfig"):
             return self._reference_new(case)
         return self._new_text(case, who).encode()
 
     def ncalls(self, case):
         """number of call boundaries of a fault-free run of this configuration (recorded on the real code)"""
         self.env()
-        key = (case.get("via"), str(case.get("old")), case.get("new_size"), case.get("cap"), str(case.get("stale")), case.get("name_len"))
+        key = cfgkey(case)
         if key not in self._nc:
             obs = self.run_impl(dict(case, kind="crash", k=10 ** 9))
             self._nc[key] = len(obs["calls"])
@@ -244,7 +366,7 @@ class C08(Prop):
         """number of call boundaries when call k raises `errno` (recorded on the real code): the crash points
         j > k of a fault-then-crash case"""
         self.env()
-        key = ("F", case.get("via"), str(case.get("old")), case.get("new_size"), case.get("cap"), str(case.get("stale")), case.get("name_len"), k)
+        key = ("F", cfgkey(case), k)
         if key not in self._nc:
             obs = self.run_impl(dict(case, kind="fault", k=k, errno=errno))
             self._nc[key] = len(obs["calls"])
@@ -260,17 +382,30 @@ class C08(Prop):
         return rng.choice([lo, size // 2, size // 2 + 1, size - 1, 4096, 4097, 5000, lo + 7])
 
     def _rand_config(self, rng, via=None):
-        via = via or ("cmdline" if rng.random() < 0.12 else "func")
+        if via is None:
+            r = rng.random()
+            via = "cmdline" if r < 0.12 else ("ipyconfig" if r < 0.17 else "func")
         if via == "cmdline":
             old = dict(size=rng.choice([40, 200, 8191, 8192, 8193, 20000]), mode=rng.choice(MODES))
-            return dict(via=via, old=old, new_size=None, cap=self._cap_for(rng, old["size"]),
-                        stale=None if rng.random() < 0.8 else dict(size=rng.choice([0, 50]), mode=rng.choice(MODES)))
+            cfg = dict(via=via, old=old, new_size=None, cap=self._cap_for(rng, old["size"]),
+                       stale=None if rng.random() < 0.8 else dict(size=rng.choice([0, 50]), mode=rng.choice(MODES)))
+            if rng.random() < 0.25:     # chmod between the argument expansion and the replacement
+                cfg["chmod_to"] = rng.choice([m for m in MODES + ["0640"] if m != old["mode"]])
+            return cfg
+        if via == "ipyconfig":
+            return dict(via=via, layout=rng.choice(IPY_LAYOUTS), old=dict(size=rng.choice([0, 300, 8193, 20000]),
+                        mode=rng.choice(MODES)), new_size=None, cap=rng.choice([None, None, 100, 4096]), stale=None)
         old = None if rng.random() < 0.12 else dict(size=rng.choice(SIZES), mode=rng.choice(MODES))
         ns = rng.choice(SIZES + [2, 100, 4096, 4097, 12289])
         stale = None if rng.random() < 0.75 else dict(size=rng.choice([0, 1, 50, 9000]), mode=rng.choice(MODES))
         cfg = dict(via=via, old=old, new_size=ns, cap=self._cap_for(rng, ns), stale=stale)
-        if rng.random() < 0.15:
+        r = rng.random()
+        if r < 0.15:
             cfg["name_len"] = rng.choice(NAME_LENS)
+        elif r < 0.3 and old is not None:
+            # the same Filename object is looked at, the owner changes the mode, then the file is replaced
+            cfg["pre"] = rng.choice(["isfile", "expand", "expanddir", "write"])
+            cfg["chmod_to"] = rng.choice([m for m in MODES + ["0640", "0400"] if m != old["mode"]])
         return cfg
 
     def _rand_sched(self, rng, base=None):
@@ -315,16 +450,65 @@ class C08(Prop):
         cfg = rng.choice(self._pool)
         n = self.ncalls(cfg)
         k = rng.randint(0, n)
+        if cfg["via"] in ("func", "ipyconfig") and cfg.get("layout") != "missing" and rng.random() < 0.08:
+            return dict(cfg, kind="fsize", limit=rng.choice([1, 100, 4096, 8192, 8193, 50000]))
         if r < 0.58:
             return dict(cfg, kind="crash", k=k)
         k = min(k, max(0, n - 1))
         en = rng.choice(G.ERRNOS)
         if r < 0.84:
             return dict(cfg, kind="fault", k=k, errno=en)
+        if cfg["via"] == "ipyconfig":
+            return dict(cfg, kind="fault", k=k, errno=en)      # (fault-then-crash of the installer: exhaustive scope)
         m = self.ncalls_fault(cfg, k, en)
         if m <= k + 1:
             return dict(cfg, kind="fault", k=k, errno=en)      # nothing is called after this error
         return dict(cfg, kind="faultcrash", k=k, errno=en, j=rng.randint(k + 1, m - 1))
+
+    def _site_cases(self, thorough):
+        """cases that drive the call sites other than atomic_write_file(Filename, str) itself: the source audit, the
+        IPython config installer in every layout, the same-Filename-object sequences, the CLI with a chmod in between"""
+        out = []
+        def all_points(cfg, faultcrash=True):
+            n = self.ncalls(cfg)
+            for k in range(n + 1):
+                out.append(dict(cfg, kind="crash", k=k))
+            for k in range(n):
+                en = G.ERRNOS[(k + len(out)) % len(G.ERRNOS)]
+                out.append(dict(cfg, kind="fault", k=k, errno=en))
+                if faultcrash:
+                    for j in range(k + 1, self.ncalls_fault(cfg, k, en)):
+                        out.append(dict(cfg, kind="faultcrash", k=k, errno=en, j=j))
+        # source audit: the set of call sites that write / rename / remove files by name
+        out.append(dict(kind="audit"))
+        # the other call site of the atomic writer: the IPython config installer, config file regular / symlink /
+        # symlink chain / missing; every crash point and fault position, RLIMIT_FSIZE short writes
+        for layout in IPY_LAYOUTS:
+            for size, mode in ([(9000, "0600")] if not thorough else [(0, "0644"), (9000, "0600"), (20000, "0444")]):
+                cfg = dict(via="ipyconfig", layout=layout, old=dict(size=size, mode=mode), new_size=None, cap=None, stale=None)
+                all_points(cfg, faultcrash=thorough or layout == "link")
+                for limit in ([4096] if not thorough else [1, 4096, 8192, 9100]):
+                    if layout != "missing":     # (the limit would also cut the stand-in `ipython profile create`)
+                        out.append(dict(cfg, kind="fsize", limit=limit))
+        for size, limit in ((8193, 4096), (102400, 8192), (100, 1)):
+            out.append(dict(via="func", old=dict(size=100, mode="0600"), new_size=size, cap=None, stale=None,
+                            kind="fsize", limit=limit))
+        # the same Filename object before and after a chmod; the command line: expand arguments -> chmod -> replace
+        pairs = [("0644", "0600"), ("0600", "0644"), ("0755", "0644"), ("0444", "0640")]
+        for pi, pre in enumerate(["isfile", "expand", "expanddir", "write"]):
+            for qi, (m0, m1) in enumerate(pairs):
+                cfg = dict(via="func", old=dict(size=100, mode=m0), new_size=60, cap=None, stale=None, pre=pre, chmod_to=m1)
+                if thorough or qi == pi:
+                    all_points(cfg, faultcrash=False)
+                else:
+                    out.append(dict(cfg, kind="crash", k=10 ** 6))
+        for qi, (m0, m1) in enumerate(pairs):
+            cfg = dict(via="cmdline", old=dict(size=200, mode=m0), new_size=None, cap=None, stale=None, chmod_to=m1)
+            if thorough or qi == 0:
+                all_points(cfg, faultcrash=False)
+            else:
+                out.append(dict(cfg, kind="crash", k=10 ** 6))
+        return out
 
     def exhaustive_cases(self, tier, rng):
         self.env()
@@ -374,6 +558,7 @@ class C08(Prop):
                     out.append(dict(cfg, kind="fault", k=k, errno=en))
                     for j in range(k + 1, self.ncalls_fault(cfg, k, en)):
                         out.append(dict(cfg, kind="faultcrash", k=k, errno=en, j=j))
+        out.extend(self._site_cases(thorough))
         # two writers: all interleavings of the two 7-call skeletons (thorough) / a sample (quick)
         base = dict(via="func", old=dict(size=100, mode="0600"), new_size=60, new_size_b=70, cap=None, cap_b=None,
                     stale=None, stale_b=None)
@@ -405,11 +590,42 @@ class C08(Prop):
                     for size, mode in ((200, "0600"), (8193, "0755"), (102400, "0444")):
                         out.append(dict(kind="strace", via="cmdline", old=dict(size=size, mode=mode), new_size=None,
                                         cap=None, stale=None, inject=None if syscall is None else [syscall, action]))
+        # the audit and the other call sites first (they are few, and a truncated run must not skip them)
+        out.sort(key=lambda c: 0 if c.get("kind") == "audit" else 1 if c.get("via") == "ipyconfig"
+                 else 2 if (c.get("pre") or c.get("chmod_to")) else 3)
         return out
 
+    def search_cases(self, rng, disagreeing, budget):
+        """failing-input search when T or K is broken.  A changed set of write sites (audit) is pursued by driving
+        every entry point that can reach a file replacement, in all layouts, at every crash point / fault position."""
+        out = []
+        if any(c.get("kind") == "audit" for c in disagreeing):
+            out = [c for c in self._site_cases(True) if c.get("kind") != "audit"]
+        return [dict(c, _src="search") for c in out][:budget]
+
     # -------------------------------------------------------- implementation
+    def _observe(self, root, case):
+        """the surviving directory of the target: {path relative to root: {len, sha, mode, gid}}; the target
+        itself as a reader sees it (symlinks followed)"""
+        t = tname(case)
+        d = os.path.dirname(t)
+        files = {}
+        for n, v in G.snapshot(os.path.join(root, d) if d else root).items():
+            files[(d + "/" + n) if d else n] = v
+        tf = G.read_follow(os.path.join(root, t))
+        files.pop(t, None)
+        if tf is not None:
+            files[t] = tf
+        if case.get("via") == "ipyconfig" and case.get("layout") in ("link", "chain"):
+            files["<real>"] = G.read_follow(os.path.join(root, IPY_REAL))
+            files["<islink>"] = os.path.islink(os.path.join(root, t))
+        return files
+
     def run_impl(self, case):
         self.env()
+        if case["kind"] == "audit":
+            import gen_c08_sites
+            return dict(gen_c08_sites.audit(REPO), kind="audit")
         if case["kind"] == "strace":
             return self._run_strace(case)
         root = self._mkroot()
@@ -422,10 +638,10 @@ class C08(Prop):
                                (self._prepare(root, case.get("stale"), "staleA", tname(case)),
                                 self._prepare(root, case.get("stale_b"), "staleB", tname(case))))
                 return dict(A=r["A"], B=r["B"], snaps=r["snaps"], files=G.snapshot(root), env=envd)
-            r = G.run_single(self._entry(case, path), root, self._plan(case, watch=path),
-                             self._prepare(root, case.get("stale"), "staleA", tname(case)))
-            obs = dict(pid=r["pid"], calls=r["calls"], fin=r["fin"], exit=r["exit"], files=G.snapshot(root), env=envd)
-            if case.get("via") == "cmdline":
+            entry, prep = self._entry_and_prepare(case, root, path)
+            r = G.run_single(entry, root, self._plan(case, watch=path), prep)
+            obs = dict(pid=r["pid"], calls=r["calls"], fin=r["fin"], exit=r["exit"], files=self._observe(root, case), env=envd)
+            if case.get("via") in ("cmdline", "ipyconfig"):
                 nb = self._reference_new(case)
                 obs["ref_new"] = dict(len=len(nb), sha=G.sha(nb))
             return obs
@@ -526,8 +742,10 @@ class C08(Prop):
         return fails, which
 
     def oracle(self, case, obs):
+        if case["kind"] == "audit":
+            return []          # a changed set of write sites is an obligation (see compare), not yet a failing input
         old_b = self._old_bytes(case)
-        old_mode = case["old"]["mode"] if case.get("old") else None
+        old_mode = self._old_mode(case)
         if case["kind"] == "sched":
             news = dict(newA=self._new_bytes(case, "A"), newB=self._new_bytes(case, "B"))
             fails = []
@@ -561,6 +779,10 @@ class C08(Prop):
                     break
         fl, which = self._judge(obs["files"].get(tname(case)), old_b, old_mode, news, where + ": survivor")
         fails.extend(fl)
+        if "<real>" in obs["files"]:
+            # the file the symlinked config points to is a user's file too
+            fl2, _ = self._judge(obs["files"]["<real>"], old_b, old_mode, news, where + ": survivor, file behind the symlink")
+            fails.extend(fl2)
         fault_op = None
         if case["kind"] in ("fault", "faultcrash") and k is not None and k < len(obs["calls"]):
             fault_op = obs["calls"][k]["op"]
@@ -608,10 +830,14 @@ class C08(Prop):
         return dict(c=[tok] if size > 0 else [], mode=_mode(mode), gid=gid)
 
     def model_requests(self, case, obs):
+        if case["kind"] == "audit":
+            return [dict(op="run", strict=False, target="t", dflt=420, dgid=0, namemax=255, old=None, pid=1, chunks=[],
+                         stale=None, fuel=0, fault=None)]
         e = obs["env"]
+        ob = self._old_bytes(case)
         base = dict(strict=self.strict(), target=tname(case), dflt=_mode(e["dflt"]), dgid=e["egid"], namemax=e["name_max"],
-                    old=None if case.get("old") is None else
-                    self._filej(len(self._old_bytes(case)), case["old"]["mode"], e["old_gid"], 0))
+                    old=None if ob is None else
+                    self._filej(len(ob), self._old_mode(case), self._old_gid(case), 0))
         if case["kind"] == "sched":
             req = dict(base, op="sched", sched=[0 if t == "A" else 1 for t in case["sched"]])
             for X, off, st in (("A", 0, case.get("stale")), ("B", 1000, case.get("stale_b"))):
@@ -638,6 +864,12 @@ class C08(Prop):
         elif case["kind"] == "faultcrash":
             req["fault"] = dict(at=case["k"], errno=getattr(_errno, case["errno"]))
             req["fuel"] = case["j"]
+        elif case["kind"] == "fsize":
+            # the kernel's own EFBIG is the fault of the plan
+            for i, c in enumerate(obs["calls"]):
+                if c.get("res") == "EFBIG":
+                    req["fault"] = dict(at=i, errno=_errno.EFBIG)
+                    break
         elif case["kind"] == "strace" and case.get("inject"):
             sysc, action = case["inject"]
             idx = {"chmod": 3, "chown": 4, "rename": 5}[sysc] + len(ch)
@@ -723,6 +955,11 @@ class C08(Prop):
         return None
 
     def compare(self, case, obs, resps):
+        if case["kind"] == "audit":
+            if obs["new"] or obs["gone"]:
+                return ("the set of call sites that write/rename/remove files by name differs from the audited baseline: "
+                        "new %r; gone %r" % (obs["new"][:4], obs["gone"][:4]))
+            return None
         r = resps[0]
         e = obs["env"]
         if case["kind"] == "sched":
@@ -756,10 +993,16 @@ class C08(Prop):
         if case.get("stale"):
             stale[900] = G.content("staleA", case["stale"]["size"]).encode()
         fault_at = case["k"] if case["kind"] in ("fault", "faultcrash") else None
+        if case["kind"] == "fsize":
+            fault_at = next((i for i, c in enumerate(obs["calls"]) if c.get("res") == "EFBIG"), None)
         failed_io = (fault_at is not None and fault_at < len(obs["calls"])
                      and obs["calls"][fault_at]["op"] in ("write", "close", "open"))
         strace_kill = case["kind"] == "strace" and case.get("inject") and case["inject"][1].startswith("signal")
         calls = obs["calls"]
+        if case.get("via") == "ipyconfig":
+            # the installer looks for the legacy startup file afterwards (os.stat of another path): not part of the replacement
+            calls = [c for c in calls if not (c["op"] in ("stat", "lstat", "access")
+                                              and not any(q.startswith(tname(case)) for q in c.get("paths", [])))]
         if case["kind"] == "strace":
             calls = [c for c in calls if not (c["op"] == "stat" and c is calls[0])]
         d = self._cmp_trace(calls, r["trace"], fault_at, allow_killed_tail=strace_kill)
@@ -771,6 +1014,9 @@ class C08(Prop):
             got = "running"
         if case.get("via") == "cmdline" and got.startswith("raised") and want.startswith("raised"):
             got = want          # the command line reports every error as SystemExit
+        if (case.get("via") == "ipyconfig" and got == "running" and want == "returned" and obs["calls"]
+                and obs["calls"][-1] not in calls and obs["calls"][-1].get("res") is None):
+            got = want          # died in the installer's epilogue (legacy startup file lookup), after the replacement
         if case["kind"] == "faultcrash" and failed_io and got == "running" and want.startswith("raised"):
             got = want          # died among the flush/close calls CPython issues while the error propagates
         if want != got:
@@ -789,6 +1035,8 @@ class C08(Prop):
 
     # ------------------------------------------------------------- reporting
     def nontrivial_key(self, case, obs):
+        if case["kind"] == "audit":
+            return "audit"
         if case["kind"] == "sched":
             if obs["A"]["calls"] and obs["B"]["calls"]:
                 return repr(sorted((k, str(v)) for k, v in case.items() if not k.startswith("_")))
@@ -799,6 +1047,8 @@ class C08(Prop):
 
     def sample_repr(self, case, obs):
         c = {k: v for k, v in case.items() if not k.startswith("_")}
+        if case["kind"] == "audit":
+            return dict(case=c, sites=obs["sites"], new=obs["new"], gone=obs["gone"])
         if case["kind"] == "sched":
             return dict(case=c, final=obs["files"].get(tname(case)), finA=obs["A"]["fin"], finB=obs["B"]["fin"])
         return dict(case=c, calls=[self._norm_call(x) for x in obs["calls"]][:12], fin=obs["fin"], exit=obs["exit"],
@@ -808,6 +1058,13 @@ class C08(Prop):
         def inc(k):
             acc[k] = acc.get(k, 0) + 1
         inc("kind_" + case["kind"])
+        if case["kind"] == "audit":
+            acc["write_sites_audited"] = obs["sites"]
+            return
+        if case.get("layout"):
+            inc("ipyconfig_" + case["layout"])
+        if case.get("pre") or case.get("chmod_to"):
+            inc("seq_%s_then_chmod" % (case.get("pre") or "cli"))
         inc("via_" + str(case.get("via")))
         if case.get("name_len"):
             inc("long_name_%d" % case["name_len"])
